@@ -99,6 +99,9 @@ def run(
         e.update({k: str(v) for k, v in env.items()})
     res.cmd = " ".join(cmd)
     t0 = time.time()
+    # the limits are sized for an idle 16-core machine; they only exist to stop a run-away model, so they are stretched
+    # (a loaded machine must not turn a slow run into a machinery error)
+    timeout = timeout * float(os.environ.get("VERIF_TIMEOUT_FACTOR", "4"))
     try:
         p = subprocess.run(
             cmd, cwd=SPEC_DIR, env=e, capture_output=True, text=True, timeout=timeout
